@@ -911,6 +911,16 @@ class STIXObjectProperty(Property):
 
         parsed_obj = parse(dictified, allow_custom=allow_custom, interoperability=interoperability)
 
+        if self.spec_version == '2.0' and isinstance(parsed_obj, _STIXBase) \
+                and 'spec_version' in parsed_obj:
+            # E.g. a 2.1 SCO given without "spec_version": it is recognised as
+            # 2.1 content only once parsed.  See above comment regarding
+            # spec_version.
+            raise ValueError(
+                "Spec version 2.0 bundles don't yet support "
+                "containing objects of a different spec version.",
+            )
+
         if isinstance(parsed_obj, _STIXBase):
             has_custom = parsed_obj.has_custom
         else:
